@@ -39,6 +39,9 @@ ADVERSARIAL = [
     "OVF. 1e999 : overflow", "OVF2. -1e400", "TINY. 1e-999 : underflow", "HUGE." + " " + "9" * 400 + " : digits", "MIX. 1,5e3 : comma",
     "U. 15_9 : underscore", "NANV. nan : nan", "INFV. -inf", "PCT%. 45 : percent in name", "PCT%. 46 : percent in name again",
     "%s. 1 : format", "%s. 2 : format", "%d%%. 3", "{0}. 4 : braces", "{0}. 5 : braces",
+    # parsable lines whose unit is an (empty) bracket pair or nested brackets: bracket stripping runs after the regex step
+    "X.[] 1 : empty brackets", "X.() : empty parentheses", ".[]", ".() :", "Y.[[]] : nested", "Z.(()) 5", "B.[(m)] 2 : twice wrapped",
+    "B.[ ] 3", "B.( ) : blank inside", "Q.[ : half open", "Q.) 4 : half closed", "q7.%% @ : &&junk", "U.[m 5 : x", "U.m] 5 : x",
 ]
 
 PRINTABLE = "".join(chr(c) for c in range(32, 127)) + "\t"
@@ -214,6 +217,10 @@ def cases(draw):
     wl = [lastext.item("STRT", "M", "1", "start"), lastext.item("STOP", "M", "2", "stop"), lastext.item("STEP", "M", "1", "step"),
           lastext.item("NULL", "", "-999.25", "null")]
     wl += draw(st.lists(S.item_line(kind="W", v12=v12), max_size=3))
+    # terse genuine lines (no period, or no colon): fields that are absent from the line must stay empty
+    TERSE = ["HOLE DIA :85.7", "PERM DAT :1", "DRILLED  :12/11/2010", "RUN.FT 12", "BS.MM 216", "LOGGER : J SMITH", "TD.M", "KB. 12.5"]
+    for pos_t in draw(st.lists(st.tuples(st.integers(4, 8), st.sampled_from(TERSE)), max_size=3)):
+        wl.insert(min(pos_t[0], len(wl)), {"t": "text", "text": pos_t[1]})
     secs.append(lastext.section("W", "~Well", wl))
     secs.append(lastext.section("C", "~Curves", [lastext.item("DEPT", "M", "", "depth"), lastext.item("GR", "GAPI", "", "gamma")]))
     if draw(st.booleans()):
@@ -235,7 +242,7 @@ def cases(draw):
 # ---------------------------------------------------------------------------------------
 # corpus bases
 
-CORPUS = ["sample.las", "1.2/sample.las", "2.0/sample_2.0.las", "6038187_v1.2_short.las", "non-standard-header-section.las",
+CORPUS = ["alog.las", "sample.las", "1.2/sample.las", "2.0/sample_2.0.las", "6038187_v1.2_short.las", "non-standard-header-section.las",
           "mnemonic_duplicate2.las", "sample_TVD.las", "2.0/sample_2.0_minimal.las", "1.2/sample_wrapped.las"]
 
 
